@@ -391,7 +391,7 @@ def gen_rw_program(rng, path, nprocs, step0=0, hints='-', fill=None, reopen=True
                 numrecs = max(numrecs, st[0] + (ct[0] - 1) * sd[0] + 1)
         if not coll:
             p.all('end_indep')
-        p.all('sync')
+        p.all('sync'); p.all('barrier')   # MPI consistency: sync - barrier before another rank reads (ncmpi_sync has no barrier)
         if hasrec:
             p.all('inq_numrecs')
         # read phase
@@ -507,7 +507,7 @@ def gen_nb_program(rng, path, nprocs, hints='-', fmt=None, bput=True):
         p.all('barrier')
         if not coll:
             p.all('end_indep')
-        p.all('sync')
+        p.all('sync'); p.all('barrier')   # MPI consistency: sync - barrier before another rank reads (ncmpi_sync has no barrier)
         if hasrec:
             p.all('inq_numrecs')
         # nonblocking reads of what is written so far: each rank one iget on its own sub-region
@@ -813,7 +813,7 @@ def gen_mix_program(rng, path, nprocs, fmt=None, hints='-'):
         written.setdefault(v.name, set()).update(cellvals.keys())
         if v.isrec:
             numrecs = max([numrecs] + [c[0] + 1 for c in cellvals])
-        p.all('sync')
+        p.all('sync'); p.all('barrier')   # MPI consistency: sync - barrier before another rank reads (ncmpi_sync has no barrier)
         if hasrec:
             p.all('inq_numrecs')
         # ---- read back: interleaving igets completed by one wait, or varn gets with permuted segments
@@ -879,4 +879,259 @@ def gen_mix_program(rng, path, nprocs, fmt=None, hints='-'):
             p.all('get var c %s %s c - - - -' % (v.name, NATIVE[v.xt]))
     p.all('close')
     p.tags.add('mix')
+    return p
+
+
+# ---------------------------------------------------------------------------------------------------------
+# "meta" programs: metadata operations in define and data mode interleaved with data access, redefinitions that
+# add dimensions / variables / attributes, nonblocking requests that are cancelled, flush / sync_numrecs, a second
+# session on the existing file that ends in close or in abort (which must drop the uncommitted definitions).
+def gen_meta_program(rng, path, nprocs, fmt=None, hints='-', ohints=None, flush_each=False, cancel_rec=True):
+    """flush_each: flush after every write (burst-buffer limitation: no element written twice between two flushes)"""
+    fmt = fmt or rng.choice([1, 2, 5])
+    ohints = hints if ohints is None else ohints
+    p = Prog(path, nprocs)
+    p.all('create %s %d clobber %s' % (path, fmt, hints))
+    types = [t for t in (XT_ALL if fmt == 5 else XT_CLASSIC) if t != 'char']
+    dims = [('d%d' % i, rng.range(2, 5)) for i in range(rng.range(1, 3))]
+    hasrec = rng.chance(2, 3)
+    vars_ = []
+    for i in range(rng.range(1, 3)):
+        vd = [rng.choice(dims) for _ in range(rng.range(1, 2))]
+        isrec = hasrec and rng.chance(1, 2)
+        if isrec:
+            vd = [('t', 0)] + vd[:1]
+        vars_.append(Var('v%d' % i, rng.choice(types), vd, isrec))
+    fill = rng.choice(['none', 'none', 'before'])
+    emit_define(p, dims, hasrec, vars_, rng, fill)
+    atts = {}        # target ('-' or var object id) -> list of [name, xt, n]
+    cnt = [0]
+
+    def tname(t):
+        return '-' if t == '-' else t.name
+
+    def new_att(t, grow_of=None):
+        nm = 'a%d' % cnt[0]; cnt[0] += 1
+        if rng.chance(1, 4):
+            n = rng.range(0, 6)
+            p.all('put_att %s %s char %d %s' % (tname(t), nm, n, ''.join('%02x' % rng.range(97, 122) for _ in range(n)) or '-'))
+            atts.setdefault(id(t), []).append([nm, 'char', n])
+        else:
+            xt = rng.choice(types)
+            n = rng.range(1, 4)
+            p.all('put_att %s %s %s %d %s' % (tname(t), nm, xt, n, ' '.join(str(rng.range(0, 100)) for _ in range(n))))
+            atts.setdefault(id(t), []).append([nm, xt, n])
+
+    targets = ['-'] + vars_
+    for _ in range(rng.range(2, 5)):
+        new_att(rng.choice(targets))
+    p.all('enddef')
+    vs = ValueSource(rng)
+    numrecs = 0
+    written = {}
+    reqn = 0
+
+    def write_some(coll=True):
+        nonlocal numrecs
+        v = rng.choice([x for x in vars_ if x.dims] or vars_)
+        if not v.dims:
+            return          # a scalar cannot be split over the ranks of a collective call
+        nr = (rng.range(1, 3) + (numrecs if rng.chance(1, 2) else 0)) if v.isrec else numrecs
+        shape = shape_of(v, max(nr, 1))
+        st, ct, sd = rand_region(rng, shape)
+        cells = region_cells(st, ct, sd)
+        cellvals = dict(zip(cells, vs.take(len(cells))))
+        parts = split_region(rng, st, ct, sd, nprocs)
+        emit_put(p, rng, v, rng.choice(MT_FOR[v.xt]), coll, parts, cellvals, p.tags)
+        written.setdefault(v.name, set()).update(cells)
+        if v.isrec:
+            numrecs = max(numrecs, st[0] + (ct[0] - 1) * sd[0] + 1)
+        if flush_each:
+            p.all('flush'); p.all('barrier')
+
+    def data_mode_meta():
+        k = rng.below(5)
+        t = rng.choice(targets)
+        al = atts.get(id(t), [])
+        if k == 0 and al:                                  # overwrite an attribute without growing it
+            a = rng.choice(al)
+            if a[1] == 'char':
+                p.all('put_att %s %s char %d %s' % (tname(t), a[0], a[2], ''.join('%02x' % rng.range(65, 90) for _ in range(a[2])) or '-'))
+            else:
+                p.all('put_att %s %s %s %d %s' % (tname(t), a[0], a[1], a[2], ' '.join(str(rng.range(0, 100)) for _ in range(a[2]))))
+            p.tags.add('meta-datamode-put_att')
+        elif k == 1 and al:                                # rename an attribute to a name of the same length
+            a = rng.choice(al)
+            nn = 'b%d' % cnt[0]; cnt[0] += 1
+            nn = (nn + 'xxxxxxxx')[:len(a[0])] if len(nn) <= len(a[0]) else None
+            if nn and nn != a[0] and all(x[0] != nn for x in al):
+                p.all('rename_att %s %s %s' % (tname(t), a[0], nn)); a[0] = nn
+                p.tags.add('meta-datamode-rename_att')
+        elif k == 2:                                       # rename a variable, same length
+            v = rng.choice(vars_)
+            nn = ('w%d' % cnt[0] + 'yyyyyyyy')[:len(v.name)]; cnt[0] += 1
+            if len(nn) == len(v.name) and all(x.name != nn for x in vars_):
+                p.all('rename_var %s %s' % (v.name, nn))
+                if v.name in written:
+                    written[nn] = written.pop(v.name)
+                v.name = nn
+                p.tags.add('meta-datamode-rename_var')
+        elif k == 3 and hasrec:
+            p.all('sync_numrecs')
+        else:
+            p.all(rng.choice(['flush', 'sync'])); p.all('barrier')
+
+    def nb_with_cancel():
+        nonlocal reqn, numrecs
+        v = rng.choice([x for x in vars_ if x.dims] or vars_)
+        if not v.dims:
+            return
+        shape = shape_of(v, max(numrecs, 1))
+        st, ct, sd = rand_region(rng, shape)
+        cells = region_cells(st, ct, sd)
+        cellvals = dict(zip(cells, vs.take(len(cells))))
+        parts = split_region(rng, st, ct, sd, nprocs)
+        texts, names = {}, {}
+        mt = rng.choice(MT_FOR[v.xt])
+        for r, part in enumerate(parts):
+            if part is None:
+                continue
+            reqn += 1
+            names[r] = 'q%d' % reqn
+            texts[r] = nb_text('iput', names[r], 'vars', v, mt, rng.choice(['c', 't']), part[0], part[1], part[2], None,
+                               [cellvals[c] for c in region_cells(*part)])
+        if not texts:
+            return
+        p.per_rank(texts)
+        p.all('inq_nreqs')
+        # cancel_rec=False (burst-buffer runs): a cancelled request on a record variable is not generated -- the burst-buffer
+        # driver counts the records of a logged request when it is posted and ncmpi_inq_dimlen keeps reporting them after the
+        # cancel until close (the file itself ends with the right count); C12 does not speak about cancelled requests
+        cancel = rng.chance(1, 2) and (cancel_rec or not v.isrec)
+        if cancel:
+            p.per_rank({r: 'cancel 1 %s' % names[r] for r in names})
+            p.tags.add('meta-cancel')
+        p.all('inq_nreqs')
+        p.all('waitall c ALL')
+        if not cancel:
+            written.setdefault(v.name, set()).update(cells)
+            if v.isrec:
+                numrecs = max(numrecs, st[0] + (ct[0] - 1) * sd[0] + 1)
+        p.all('barrier')
+
+    def read_all():
+        if hasrec:
+            p.all('inq_numrecs')
+        for v in vars_:
+            if all(n > 0 for n in shape_of(v, numrecs)):
+                p.all('get var c %s %s c - - - -' % (v.name, NATIVE[v.xt]))
+
+    def redefine():
+        p.all('redef')
+        nd = None
+        if rng.chance(1, 2):
+            nd = ('e%d' % cnt[0], rng.range(1, 4)); cnt[0] += 1
+            p.all('def_dim %s %d' % nd)
+            dims.append(nd)
+        if rng.chance(2, 3):
+            vd = [rng.choice(dims) for _ in range(rng.range(0, 2))]
+            isrec = hasrec and rng.chance(1, 2)
+            if isrec:
+                vd = [('t', 0)] + vd[:1]
+            if rng.chance(1, 3):
+                p.all('set_fill %d' % rng.range(0, 1))
+            nv = Var('n%d' % cnt[0], rng.choice(types), vd, isrec); cnt[0] += 1
+            p.all('def_var %s %s %d %s' % (nv.name, nv.xt, len(nv.dims), ' '.join(d[0] for d in nv.dims)))
+            if rng.chance(1, 3):
+                p.all('def_var_fill %s %d %s' % (nv.name, rng.range(0, 1), rng.choice(['-', str(rng.range(1, 50))])))
+            vars_.append(nv)
+            targets.append(nv)
+            p.tags.add('meta-redef-add-var')
+        for _ in range(rng.range(0, 2)):
+            new_att(rng.choice(targets))
+        t = rng.choice(targets)
+        al = atts.get(id(t), [])
+        if al and rng.chance(1, 2):
+            a = rng.choice(al)
+            p.all('del_att %s %s' % (tname(t), a[0])); al.remove(a)
+            p.tags.add('meta-del_att')
+        if al and rng.chance(1, 2):
+            a = rng.choice(al)
+            nn = 'longer_name_%d' % cnt[0]; cnt[0] += 1
+            p.all('rename_att %s %s %s' % (tname(t), a[0], nn)); a[0] = nn
+        if al and rng.chance(1, 2):
+            a = rng.choice(al)
+            t2 = rng.choice(targets)
+            al2 = atts.setdefault(id(t2), [])
+            if t2 is not t:
+                p.all('copy_att %s %s %s' % (tname(t), a[0], tname(t2)))
+                ex = [x for x in al2 if x[0] == a[0]]
+                if ex:
+                    ex[0][1], ex[0][2] = a[1], a[2]
+                else:
+                    al2.append(list(a))
+                p.tags.add('meta-copy_att')
+        if rng.chance(1, 3):
+            d = rng.choice(dims)
+            nn = 'dim_%d' % cnt[0]; cnt[0] += 1
+            p.all('rename_dim %s %s' % (d[0], nn))
+            i = dims.index(d)
+            dims[i] = (nn, d[1])
+            for v in vars_:
+                v.dims = [((nn, x[1]) if x[0] == d[0] else x) for x in v.dims]
+            p.tags.add('meta-rename_dim')
+        p.all(rng.choice(['enddef', 'enddef', 'enddef2 0 64 0 32']))
+
+    def dump():
+        p.all('inq')
+        for t in targets:
+            p.all('inq_natts %s' % tname(t))
+            for a in atts.get(id(t), []):
+                p.all('get_att %s %s double' % (tname(t), a[0]))
+        for v in vars_:
+            p.all('inq_var %s' % v.name)
+        read_all()
+
+    for rnd in range(rng.range(2, 3)):
+        write_some()
+        for _ in range(rng.range(1, 3)):
+            data_mode_meta()
+        if rng.chance(1, 2):
+            nb_with_cancel()
+        read_all()
+        redefine()
+        read_all()
+        if rng.chance(1, 2):
+            write_some()
+    dump()
+    p.all('close')
+    # second session on the existing file
+    p.all('open %s w %s' % (path, ohints))
+    write_some()
+    snapshot = ([Var(v.name, v.xt, list(v.dims), v.isrec) for v in vars_], list(dims), {k: [list(a) for a in al] for k, al in atts.items()}, list(targets), dict(written))
+    nv0 = len(vars_)
+    redefine()
+    if rng.chance(1, 2):
+        write_some()
+        ending = 'close'
+    else:
+        ending = 'abort'
+        p.tags.add('meta-abort-after-redef')
+    p.all(ending)
+    p.all('open %s r -' % path)
+    if ending == 'abort':
+        # definitions made after the last redef are gone; what was there before is intact.  Names: the generator's
+        # bookkeeping objects were renamed in place, so rebuild the dump from the snapshot
+        p.all('inq')
+        for v in snapshot[0]:
+            p.all('inq_var %s' % v.name)
+            if all(n > 0 for n in shape_of(v, numrecs)):
+                p.all('get var c %s %s c - - - -' % (v.name, NATIVE[v.xt]))
+        if hasrec:
+            p.all('inq_numrecs')
+    else:
+        dump()
+    p.all('close')
+    p.tags.add('meta')
+    p.tags.add('meta-fmt%d' % fmt)
     return p
